@@ -13,7 +13,11 @@
    * outputs of hashes / PRGs / the RNG are INPUTS of the executable functions (the harness supplies
      the values the Go run produced), or explicit function arguments ([hV], [sc2], [H]).
    * [res]: ROk = normal return, RErr = Go returned an error, RPanic = Go would panic
-     (index out of range). *)
+     (index out of range).
+   * The model follows the REPAIRED additive.go / multiply.go (list-length checks, mask loops bounded
+     by the pad's own length); the previous behaviour is kept as [*_v0] for regression.  The nil
+     checks of the repaired code (nil msg / Msg / UCheck / RCheck entries) have no counterpart: the
+     model's values are never nil. *)
 From Coq Require Import List NArith ZArith Bool Arith.
 From MPS Require Import Model.Bytes.
 Import ListNotations.
@@ -278,32 +282,64 @@ Section AdditiveOT.
     : list (bytes * bytes) * list (Z * Z) :=
     let r := map (additive_send_one alpha) V in (map fst r, map snd r).
 
-  (* AdditiveOTReceiver.Round2.
-     The masking loops are, AS WRITTEN,
+  (* AdditiveOTReceiver.Round2 (repaired code, /repo commit "fix: AdditiveOT receiver masks each pad
+     over its own length ..."):
+        if msg == nil || len(msg.CombinedPads) != batchSize { return error }
+        for j := 0; j < len(msg.CombinedPads[i][w]); j++ { msg.CombinedPads[i][w][j] &= mask }
+     every byte of pad i is masked; a pad of the wrong length then fails in UnmarshalBinary. *)
+  Definition masked_pad (c : bool) (pad : bytes) : bytes := mask_bytes c pad.
+
+  Definition additive_recv_one (choices : bytes) (VC : list bytes) (CP : list (bytes * bytes))
+    (i : nat) : res (Z * Z) :=
+    let c := bit_at i choices in
+    let '(v0, v1) := sc2 (nth i VC []) in
+    let cp := nth i CP ([], []) in
+    match scalar_unmarshal q nb (masked_pad c (fst cp)) with
+    | None => RErr
+    | Some c0 =>
+        match scalar_unmarshal q nb (masked_pad c (snd cp)) with
+        | None => RErr
+        | Some c1 => ROk (zadd q (zneg q v0) c0, zadd q (zneg q v1) c1)
+        end
+    end.
+  Definition additive_recv (choices : bytes) (VC : list bytes) (CP : list (bytes * bytes))
+    : res (list (Z * Z)) :=
+    if negb (length CP =? 8 * length choices)%nat then RErr
+    else res_map (additive_recv_one choices VC CP) (seq 0 (8 * length choices)).
+
+  (* does the receiver accept the message?  (independent of the pads V and of sc2) *)
+  Definition pad_decodes (c : bool) (pad : bytes) : bool :=
+    match scalar_unmarshal q nb (masked_pad c pad) with Some _ => true | None => false end.
+  Definition additive_msg_ok (choices : bytes) (CP : list (bytes * bytes)) : bool :=
+    (length CP =? 8 * length choices)%nat
+    && forallb (fun i => let cp := nth i CP ([], []) in
+                         pad_decodes (bit_at i choices) (fst cp) && pad_decodes (bit_at i choices) (snd cp))
+               (seq 0 (8 * length choices)).
+
+  (* ---- the code BEFORE the repair (regression only).  The masking loops were
         for j := 0; j < len(msg.CombinedPads[j][w]); j++ { msg.CombinedPads[i][w][j] &= mask }
-     i.e. the bound is read from entry j, not entry i.  [mask_stop lens 0] is the first j with
+     i.e. the bound was read from entry j, not entry i.  [mask_stop lens 0] is the first j with
      j >= len(CombinedPads[j][w]) (None: j ran past the end of CombinedPads, index panic). *)
   Fixpoint mask_stop (lens : list nat) (j : nat) : option nat :=
     match lens with
     | [] => None
     | l :: rest => if (j <? l)%nat then mask_stop rest (S j) else Some j
     end.
-  Definition masked_pad (lens : list nat) (c : bool) (pad : bytes) : res bytes :=
+  Definition masked_pad_v0 (lens : list nat) (c : bool) (pad : bytes) : res bytes :=
     match mask_stop lens 0 with
     | None => RPanic
     | Some J => if (J <=? length pad)%nat
                 then ROk (mask_bytes c (firstn J pad) ++ skipn J pad)
                 else RPanic
     end.
-
-  Definition additive_recv_one (choices : bytes) (VC : list bytes) (CP : list (bytes * bytes))
+  Definition additive_recv_one_v0 (choices : bytes) (VC : list bytes) (CP : list (bytes * bytes))
     (i : nat) : res (Z * Z) :=
     let c := bit_at i choices in
     let '(v0, v1) := sc2 (nth i VC []) in
     if (length CP <=? i)%nat then RPanic else
     let cp := nth i CP ([], []) in
-    res_bind (masked_pad (map (fun p => length (fst p)) CP) c (fst cp)) (fun m0 =>
-    res_bind (masked_pad (map (fun p => length (snd p)) CP) c (snd cp)) (fun m1 =>
+    res_bind (masked_pad_v0 (map (fun p => length (fst p)) CP) c (fst cp)) (fun m0 =>
+    res_bind (masked_pad_v0 (map (fun p => length (snd p)) CP) c (snd cp)) (fun m1 =>
     match scalar_unmarshal q nb m0 with
     | None => RErr
     | Some c0 =>
@@ -312,9 +348,9 @@ Section AdditiveOT.
         | Some c1 => ROk (zadd q (zneg q v0) c0, zadd q (zneg q v1) c1)
         end
     end)).
-  Definition additive_recv (choices : bytes) (VC : list bytes) (CP : list (bytes * bytes))
+  Definition additive_recv_v0 (choices : bytes) (VC : list bytes) (CP : list (bytes * bytes))
     : res (list (Z * Z)) :=
-    res_map (additive_recv_one choices VC CP) (seq 0 (8 * length choices)).
+    res_map (additive_recv_one_v0 choices VC CP) (seq 0 (8 * length choices)).
 
   (* send[j] + recv[j] = c_j * alpha, both components *)
   Fixpoint additive_check_from (j : nat) (alpha : Z * Z) (choices : bytes)
@@ -417,10 +453,28 @@ Fixpoint mult_recv_check_from (q chi0 chi1 : Z) (i : nat) (choices : bytes)
           else RErr
       end
   end.
+(* repaired code: "if len(msg.RCheck) != len(result) { return error }" precedes the loop *)
+Definition mult_recv_check (q chi0 chi1 : Z) (choices : bytes) (result : list (Z * Z))
+  (rcheck : list Z) (ucheck : Z) : res unit :=
+  if negb (length rcheck =? length result)%nat then RErr
+  else mult_recv_check_from q chi0 chi1 0 choices result rcheck ucheck.
 Definition mult_recv (q chi0 chi1 : Z) (choices : bytes) (result : list (Z * Z))
+  (rcheck : list Z) (ucheck : Z) (gadget : list Z) : res Z :=
+  res_bind (mult_recv_check q chi0 chi1 choices result rcheck ucheck) (fun _ =>
+    mult_share q result gadget).
+(* before the repair (regression only): no length check, RCheck[i] indexed directly *)
+Definition mult_recv_v0 (q chi0 chi1 : Z) (choices : bytes) (result : list (Z * Z))
   (rcheck : list Z) (ucheck : Z) (gadget : list Z) : res Z :=
   res_bind (mult_recv_check_from q chi0 chi1 0 choices result rcheck ucheck) (fun _ =>
     mult_share q result gadget).
+
+(* MultiplyReceiver.Round2 as a whole, on an arbitrary sender message (CP, rcheck, ucheck):
+   VC = the receiver's extended-OT pads, gadget / choices = its own state *)
+Definition mult_recv_round2 (q : Z) (nb : nat) (sc2 : bytes -> Z * Z) (chi0 chi1 : Z)
+  (choices : bytes) (VC : list bytes) (gadget : list Z)
+  (CP : list (bytes * bytes)) (rcheck : list Z) (ucheck : Z) : res Z :=
+  res_bind (additive_recv q nb sc2 choices VC CP) (fun rres =>
+    mult_recv q chi0 chi1 choices rres rcheck ucheck gadget).
 
 Definition mult_check (q alpha beta share_s share_r : Z) : bool :=
   (zadd q share_s share_r =? zmul q alpha beta)%Z.
